@@ -266,26 +266,30 @@ func genScript(r *vh.RNG, malformed bool) ([]string, scriptMeta) {
 		if s >= 1 {
 			wgt = ws[s-1]
 		}
+		xT := T
+		if vt == 5 {
+			xT = Tc // certificate votes report the certificate threshold
+		}
 		line := ""
 		switch r.Intn(9) {
 		case 0: // stale precommit counted in its old wrapper
 			line = vline(3, R, i, h, p, s, wgt, uint64(r.Intn(2)), 1, T, 1)
 		case 1:
-			line = vline(vt, R, i, h, p, s, wgt, 3, 1, T, 1)
+			line = vline(vt, R, i, h, p, s, wgt, 3, 1, xT, 1)
 		case 2:
-			line = vline(vt, R, i, h, p, s, wgt, 4, 1, T, 1)
+			line = vline(vt, R, i, h, p, s, wgt, 4, 1, xT, 1)
 		case 3: // older round
-			line = vline(vt, R-1, i, h, p, s, wgt, uint64(r.Intn(2)), 1, T, uint64(r.Range(1, 2)))
+			line = vline(vt, R-1, i, h, p, s, wgt, uint64(r.Intn(2)), 1, xT, uint64(r.Range(1, 2)))
 		case 4: // wrong message kind
 			line = vline(uint64(r.Intn(2)), R, i, h, p, s, wgt, 2, 1, T, 1)
 		case 5: // house / unknown validator kind
-			line = vline(vt, R, i, h, p, s, wgt, 2, uint64(2*r.Intn(2)), T, 1)
+			line = vline(vt, R, i, h, p, s, wgt, 2, uint64(2*r.Intn(2)), xT, 1)
 		case 6: // credential rejected
-			line = vline(vt, R, i, h, p, s, wgt, 2, 1, T, 0)
+			line = vline(vt, R, i, h, p, s, wgt, 2, 1, xT, 0)
 		case 7: // status same but another context
-			line = vline(vt, R+uint64(r.Intn(2)), i+uint64(r.Intn(3)), h, p, s, wgt, 2, 1, T, 1)
+			line = vline(vt, R+uint64(r.Intn(2)), i+uint64(r.Intn(3)), h, p, s, wgt, 2, 1, xT, 1)
 		case 8: // lenient credential
-			line = vline(vt, R, i, h, p, s, wgt, uint64(r.Intn(3)), 1, T, 2)
+			line = vline(vt, R, i, h, p, s, wgt, uint64(r.Intn(3)), 1, xT, 2)
 			if r.Chance(50) {
 				meta.uniform = meta.uniform && true
 			}
@@ -293,19 +297,19 @@ func genScript(r *vh.RNG, malformed bool) ([]string, scriptMeta) {
 		if malformed {
 			switch r.Intn(8) {
 			case 0:
-				line = fmt.Sprintf("V %d %d %d %d %d %d %d 2 1 1 1 1 1 %d 1", vt, R, i, h, p, s, wgt, T) // nil vote
+				line = fmt.Sprintf("V %d %d %d %d %d %d %d 2 1 1 1 1 1 %d 1", vt, R, i, h, p, s, wgt, xT) // nil vote
 			case 1:
-				line = fmt.Sprintf("V %d %d %d %d %d %d %d 2 0 0 1 1 1 %d 1", vt, R, i, h, p, s, wgt, T) // bad signature
+				line = fmt.Sprintf("V %d %d %d %d %d %d %d 2 0 0 1 1 1 %d 1", vt, R, i, h, p, s, wgt, xT) // bad signature
 			case 2:
-				line = fmt.Sprintf("V %d %d %d %d %d %d %d 2 0 1 0 1 1 %d 1", vt, R, i, h, p, s, wgt, T) // claimed by another address
+				line = fmt.Sprintf("V %d %d %d %d %d %d %d 2 0 1 0 1 1 %d 1", vt, R, i, h, p, s, wgt, xT) // claimed by another address
 			case 3:
-				line = fmt.Sprintf("V %d %d %d %d %d %d %d 2 0 1 1 0 1 %d 1", vt, R, i, h, p, s, wgt, T) // stake lookup fails
+				line = fmt.Sprintf("V %d %d %d %d %d %d %d 2 0 1 1 0 1 %d 1", vt, R, i, h, p, s, wgt, xT) // stake lookup fails
 			case 4: // another threshold for this sender
 				line = vline(vt, R, i, h, p, s, wgt, 2, 1, thresholds[r.Intn(len(thresholds))], 1)
 				meta.uniform = false
 			case 5:
 				if r.Chance(20) {
-					line = fmt.Sprintf("V %d %d %d %d %d %d %d %d 1 1 1 1 1 %d 1", vt, R, i, h, p, s, wgt, r.Intn(2), T) // nil vote, not msgSame: panics
+					line = fmt.Sprintf("V %d %d %d %d %d %d %d %d 1 1 1 1 1 %d 1", vt, R, i, h, p, s, wgt, r.Intn(2), xT) // nil vote, not msgSame: panics
 				}
 			}
 		}
@@ -318,8 +322,13 @@ func genScript(r *vh.RNG, malformed bool) ([]string, scriptMeta) {
 	// environment changes in flight
 	if r.Chance(15) {
 		at := r.Intn(len(evs) + 1)
+		evt := uint64(2 + r.Intn(4))
+		ethr := T
+		if evt == 5 {
+			ethr = Tc // the own certificate sortition reports the certificate threshold
+		}
 		l := []string{fmt.Sprintf("EB %d %d", B[r.Intn(3)], r.Intn(2)), fmt.Sprintf("ES %d 0 0 0 0", 2+r.Intn(4)), fmt.Sprintf("EC %d", r.Intn(2)),
-			fmt.Sprintf("ES %d 1 %d 1 %d", 2+r.Intn(4), r.Intn(3), T)}[r.Intn(4)]
+			fmt.Sprintf("ES %d 1 %d 1 %d", evt, r.Intn(3), ethr)}[r.Intn(4)]
 		evs = append(evs[:at], append([]string{l}, evs[at:]...)...)
 	}
 	// dumps
@@ -377,13 +386,16 @@ func certLatchScript(r *vh.RNG) ([]string, scriptMeta) {
 	} else {
 		c1 := qc / 2
 		c2 := qc - c1
-		out = append(out,
+		out = append(out[:1],
 			fmt.Sprintf("ES 5 1 0 1 %d", T),
+			"EB 1 0", // the block is not in the cache yet: the first commit attempt returns early
+			fmt.Sprintf("C %d 1 %d 1", R, []int{2, 4, 5}[r.Intn(3)]),
 			vline(5, R, 1, 1, 11, 1, c1, 2, 1, T, 1),
 			vline(5, R, 1, 1, 11, 2, c2, 2, 1, T, 1), // certificate quorum latched
 			vline(3, R, 1, 1, 11, 3, q, 2, 1, T, 1),  // precommit quorum: own certificate vote, certificated = true
 			vline(5, R, 1, 2, 12, 1, c1, 2, 1, T, 1), // certificate voter 1 equivocates
-			vline(3, R, 1, 1, 11, 4, 1, 2, 1, T, 1))  // another precommit: commit with the remaining certificate votes
+			"EB 1 1",                                 // the block arrives
+			vline(3, R, 1, 1, 11, 4, 1, 2, 1, T, 1))  // another precommit: commit through the Precommit branch
 	}
 	out = append(out, "D")
 	return out, scriptMeta{family: "cert-latch", cert: true, T: T, Tc: T, uniform: true}
